@@ -758,11 +758,17 @@ class Fn:
         statement, match arm, tail).  A different count, or an expression that does not start with the given text, is a lost anchor."""
         n, m = (int(x) for x in nm.split('/'))
         ex = self.exits()
+        want = ' '.join(prefix.split())
         if len(ex) != m:
-            raise LostAnchor('%s: %d break/return expressions, overlay expects %d' % (self.name, len(ex), m))
-        a, b = ex[n - 1]
+            # another number of exits than on the reference tree: the anchor survives if exactly one exit has the expected text
+            cands = [(a, b) for a, b in ex if want and ' '.join(self.text[a:b].split()).startswith(want)]
+            if len(cands) != 1:
+                raise LostAnchor('%s: %d break/return expressions, overlay expects %d' % (self.name, len(ex), m))
+            a, b = cands[0]
+        else:
+            a, b = ex[n - 1]
         got = ' '.join(self.text[a:b].split())
-        if prefix and not got.startswith(' '.join(prefix.split())):
+        if want and not got.startswith(want):
             raise LostAnchor('%s: exit %d is %r, overlay expects %r' % (self.name, n, got, prefix))
         self.replace(a, b, '{\n' + text.rstrip() + '\n' + self.text[a:b] + ' }')
 
